@@ -184,14 +184,14 @@ MANIFEST_TEXT["C07"] = {
 
 PLANS["C08"] = {
     "level": "exploration",
-    "rule": "stage 1 (exhaustive sub-space): every list of <= 4 (quick) / <= 5 (thorough) tokens over 18 token shapes (empty, -, --, ---, clusters incl. multi-byte, long names, values with dashes/blanks, -h, --help) through the real ArgList, compared item by item with the reference classifier; "
-            "stage 2: random lists of <= 12 tokens over {-, a, é, €, 𐍈, blank}, and every third list typed (quoted as needed) into a real Cli and compared at the handler. distinct = enumerated lists + hash of the item-kind sequence",
+    "rule": "stage 1 (exhaustive sub-space): every list of <= 4 (quick) / <= 5 (thorough) tokens over 20 token shapes (empty, -, --, ---, ----, clusters incl. 2/3/4-byte characters with every kind of lead octet, long names, values with dashes/blanks, -h, --help) through the real ArgList, compared item by item with the reference classifier; "
+            "stage 2: random lists of <= 12 tokens over {-, a, é, €, 𐍈, blank}, and every third list typed (quoted as needed) into a real Cli and compared at the handler; stage 3: every scalar value >= U+0020 as a short option alone and inside a cluster, as a long option name, as a value and after `--`. distinct = enumerated lists + scalars + hash of the item-kind sequence",
     "assumptions": ["re-joining law is checked as equality with the reference classification (which is the unique classification that re-joins to the token list under the stated rules)"],
     "exhaustive": {"quick": True, "thorough": True},
-    "exhaustive_note": {"quick": "stage 1 only: all 111,151 lists of <= 4 tokens over 18 shapes", "thorough": "stage 1 only: all 2,000,719 lists of <= 5 tokens over 18 shapes"},
-    "min_counts": {"quick": {"c08.direct.lists": 111000, "c08.random.lists": 70000, "c08.end_to_end.lines": 15000},
-                   "thorough": {"c08.direct.lists": 2000000, "c08.random.lists": 1900000, "c08.end_to_end.lines": 400000}},
-    "stages": [{"variant": "dbg", "workload": "C08-direct"}, {"variant": "dbg", "workload": "C08-random"}],
+    "exhaustive_note": {"quick": "stages 1 and 3: all 168,421 lists of <= 4 tokens over 20 shapes; all 1,112,031 scalars as option characters", "thorough": "stages 1 and 3: all 3,368,421 lists of <= 5 tokens over 20 shapes; all scalars"},
+    "min_counts": {"quick": {"c08.direct.lists": 168000, "c08.random.lists": 70000, "c08.end_to_end.lines": 15000, "c08.scalars": 1112031},
+                   "thorough": {"c08.direct.lists": 3360000, "c08.random.lists": 1900000, "c08.end_to_end.lines": 400000, "c08.scalars": 1112031}},
+    "stages": [{"variant": "dbg", "workload": "C08-direct"}, {"variant": "dbg", "workload": "C08-random"}, {"variant": "dbg", "workload": "C08-scalars"}],
 }
 MANIFEST_TEXT["C08"] = {
     "technique": "runtime monitoring: real ArgList item stream compared with a reference classifier over a bounded-exhaustive token-list space and random lists; end-to-end through the Cli",
